@@ -19,6 +19,35 @@ def tier_cfg(tier):
     return {"depth": 2, "kd": 3, "ke": 2, "slice_depth": 3, "d_rows": inputs.D_ROWS, "e_rows": inputs.E_ROWS, "eager_model": True}
 
 
+def method_menu(cols, roles, depth, hist):
+    """one step per catalogued method family that the core menu does not use (aggregates in project and
+    partitioned extend, scalar methods in plain extend), so that the Polars expression map is covered"""
+    from mc.hist import C, V, O, M, F
+
+    K, N = menus._pick(cols, roles)
+    if len(N) < 2 or not K:
+        return []
+    A, B, g = N[0], N[1], K[0]
+    items = []
+    for fn in ("median", "std", "var", "nunique", "size", "min", "max", "mean", "count", "sum"):
+        items.append({"op": "project", "ops": {"s": M(fn, C(B))}, "group_by": [g]})
+        items.append({"op": "project", "ops": {"s": M(fn, C(B))}, "group_by": []})
+        items.append({"op": "extend", "ops": {"z": M(fn, C(B))}, "partition_by": [g]})
+    for fn in ("abs", "sign", "floor", "ceil", "round", "sqrt", "exp", "log", "sin", "cos", "is_bad", "is_null", "coalesce_0", "as_int64"):
+        items.append({"op": "extend", "ops": {"z": M(fn, C(B if fn != "as_int64" else A))}})
+    for fn in ("fmax", "fmin", "minimum", "maximum", "coalesce"):
+        items.append({"op": "extend", "ops": {"z": M(fn, C(A), C(B))}})
+        items.append({"op": "extend", "ops": {"z": M(fn, C(B), C(A))}})
+    for op in ("+", "-", "*", "/", "//", "%", "**", "<", "<=", ">=", "=="):
+        items.append({"op": "extend", "ops": {"z": O(op, C(A), C(B))}})
+    items.append({"op": "extend", "ops": {"z": M("if_else", O(">", C(B), V(1)), C(A), C(B))}})
+    items.append({"op": "extend", "ops": {"z": M("where", O(">", C(B), V(1)), C(A), C(B))}})
+    items.append({"op": "extend", "ops": {"z": M("is_in", C(A), ["v", None])}}) if False else None
+    items.append({"op": "extend", "ops": {"z": M("concat", C(g), V("_s"))}})
+    items.append({"op": "extend", "ops": {"z": M("trimstr", C(g), V(0), V(1))}})
+    return [i for i in items if i is not None]
+
+
 def work(hists, cfg, open_ids):
     part = core.Part(open_ids)
     for hist in hists:
@@ -51,7 +80,7 @@ def work(hists, cfg, open_ids):
 def run(tier):
     cfg = tier_cfg(tier)
     run = core.Run(PROP, tier)
-    ex = explorer.Explorer(menus.core_menu)
+    ex = explorer.Explorer(menus.core_menu_q if tier == "quick" else menus.core_menu)
     states = ex.run(cfg["depth"])
     hists = [s.hist for s in states]
     st = ex.stats()
@@ -66,6 +95,14 @@ def run(tier):
         extra.update({"slice_depth": cfg["slice_depth"], "slice_states": s2["states"], "slice_new_states": len(add)})
         st["states"] += len(add)
         st["transitions"] += s2["transitions"]
+    ex4 = explorer.Explorer(method_menu)
+    st4 = ex4.run(1)
+    seen_h0 = {H.hist_key(h) for h in hists}
+    add4 = [s.hist for s in st4 if H.hist_key(s.hist) not in seen_h0]
+    hists += add4
+    extra.update({"method_slice_states": len(add4)})
+    st["states"] += len(add4)
+    st["transitions"] += ex4.stats()["transitions"]
     chain_depth = 3 if tier == "quick" else 4
     ex3 = explorer.Explorer(c01.chain_menu)
     st3 = ex3.run(chain_depth)
@@ -92,9 +129,9 @@ def run(tier):
     ]
     return run.finish(
         exhaustive=True,
-        rule=f"all pipelines reachable in <= {cfg['depth']} builder calls over the core menu"
+        rule=f"all pipelines reachable in <= {cfg['depth']} builder calls over the core menu" + (" (quick tier: the first call from a thinner one-per-shape selection of the menu, every later call from the full menu)" if tier == "quick" else "")
         + (f" plus <= {cfg['slice_depth']} calls over the SQL-translation slice" if cfg["slice_depth"] else "")
-        + f" plus <= {chain_depth} calls over the extend-chain slice"
+        + f" plus <= {chain_depth} calls over the extend-chain slice and one call over the method slice (every catalogued aggregate in project / partitioned extend, scalar methods and operators in plain extend)"
         + f", each on all multisets of <= {cfg['kd']} rows over the {len(cfg['d_rows'])}-row alphabet of d (<= {cfg['ke']} rows of e when read), as pl.DataFrame and pl.LazyFrame; a case is one (pipeline, input, frame kind) triple",
         extra=extra,
     )
